@@ -7,7 +7,7 @@ from fw import g_bool, g_list, g_nats, g_opt
 PID = 'C20'
 CHK = 'Chk_C20'
 IMPORTS = ('Digraph',)
-SHARD = 700
+SHARD = 150
 RULE = ('digraphs built through add_nodes/add_neighbors histories: exhaustive over all digraphs with self-loops on '
         '<= 3 nodes (quick) / <= 4 nodes (thorough) with int and identity-keyed nodes, plus random graphs up to 12 '
         '(quick) / 30 (thorough) nodes with shuffled insertion order, repeated add_neighbors calls, edges to unknown '
